@@ -19,7 +19,7 @@ ALPHA = ['a', ' ', '\t', '"', '\\', '=', "'", '#', '\r', '\n', '\x0b', '\x0c', '
 CNAME = {' ': 'space', '\t': 'tab', '"': 'dquote', '\\': 'backslash', '=': 'equals', "'": 'squote',
          '#': 'hash', '\r': 'cr', '\n': 'lf', '\x0b': 'vt', '\x0c': 'ff', '\x1c': 'fs'}
 # keys: a configuration keyword is a plain token; anything else must be refused (or survive the round trip) - never a 2nd line
-BAD_KEYS = ['a\nb', 'a\rb', 'a\r\nSIGNAL SHUTDOWN', 'a b', 'a\tb', 'a=b', '', 'a"b', '"ab"', 'a\x0bb']
+BAD_KEYS = ['a\n', 'a\r', '\na', 'a\r\n', ' a', 'a ', 'a\x0c', 'a\nb', 'a\rb', 'a\r\nSIGNAL SHUTDOWN', 'a b', 'a\tb', 'a=b', '', 'a"b', '"ab"', 'a\x0bb']
 SUBSET = ['', 'a', 'a b', ' ', '"', 'a"', '"a b"', '\\', 'a \\', 'a\tb', 'x=y', "'q'", 'a\nb', '#']
 NONSTR = [0, 1, -1, True, False, 1.5, 10 ** 12]
 KEYS = ['SocksPort', 'ORPort', 'ContactInfo']
